@@ -20,12 +20,20 @@ def run(ctx):
                 cases.append(f['case'][:1] + [str(len(cases))] + f['case'][2:])
     else:
         cases = opgen.gen_cases(instrs_bin=['Xor'], instrs_un=TESTERS)
-    # program-level: short-circuit and arm selection through the RUN suite
-    try:
-        from props import progsuite
-        prog_cases = progsuite.c10_cases(ctx) if not ctx.replay else []
-    except ImportError:
-        prog_cases = []
+    # program level: logical operators, conditionals and else-chains whose operands / arms end in every kind of
+    # instruction, with left operands selecting either side; real pipeline vs evalF (value and host-call trace: an
+    # operand that must not be evaluated shows as an extra resolve call)
+    prog_cases, pmeta = [], {}
+    if not ctx.replay:
+        import random
+        import progsuite
+        from gen import proggen
+        rnd = random.Random(ctx.seed + 10)
+        for k, (name, root) in enumerate(proggen.logic_shapes()):
+            src, ast = proggen.pp(root), proggen.program_term(root)
+            for inp in (proggen.INPUTS if ctx.tier == 'thorough' else ['-', '(i 5)', 'F']):
+                for st in (progsuite.STORES if ctx.tier == 'thorough' else [progsuite.STORES[k % 2]]):
+                    pmeta[progsuite.prog_case(prog_cases, st, src, inp, progsuite.HOSTS[k % len(progsuite.HOSTS)], ast)] = 'logic'
     ctx.evaluations = len(cases) + len(prog_cases)
     if not h_ok:
         return
@@ -56,11 +64,17 @@ def run(ctx):
             ctx.fail('corr', c, impl=ri, model=rm, expect=rm, note='implementation differs from the Lean model (OP suite)')
     ctx.oblige('suite OP.{JumpIfTrue,JumpIfFalse,And,Or,Xor,Not,Tis} (implementation = Lean model)', 'suite', dis == 0 and drv_ok, f'{dis} disagreement(s)')
     if prog_cases:
-        progsuite.c10_check(ctx, prog_cases)
+        pimpl = vlib.run_impl(prog_cases, 'c10prog', per_case_s=5.0)
+        pmodel = vlib.run_model(prog_cases, 'c10prog') if drv_ok else {}
+        pstats = progsuite.compare_prog(ctx, prog_cases, pmeta, pimpl, pmodel, want_balance=False)
+        for c in prog_cases:
+            ctx.distinct.add(('prog', c[3], c[4]))
+        ctx.suites['PROG.logic'] = len(prog_cases)
+        ctx.suites['PROG.logic outcomes'] = pstats
     ctx.exhaustive = True
     ctx.rule = ('every testing instruction (JumpIfTrue, JumpIfFalse, And, Or, Not, Tis; Xor on all ordered pairs) x every value type with empty and non-empty representatives x both stores x 3 host modes, exhaustive; '
                 'oracle: taken/fall-through, pushed boolean and register delta follow truthy(v) = v not in {unit, $!}; distinct = distinct (instr, A, B).'
-                + (' Program level: see suites.' if prog_cases else ''))
+                + (' Program level (PROG): every combination of (&&, ||, ?>, !>, else-chain arm / middle arm / final arm, two-level nestings) x (left operand truthy / $! / unit / $) x (operand or arm ending in an atom, ??, !!, arithmetic, an inner else-chain arm or final arm with and without ??, an inner && / ||, a conditional, a call, a list, a pair, an identifier) run through the real pipeline and compared with evalF: value and host-call trace.' if prog_cases else ''))
     ctx.suites['OP.testers'] = len(cases)
     for c, ri, rm, skip in rows[:: max(1, len(rows) // 6)][:6]:
         ctx.sample({'case': c[2:], 'impl': ri, 'model': rm}, cap=80)
